@@ -1,0 +1,110 @@
+//go:build verif
+
+// Contracts for package runner, checked by /verif (govc). Comment-only file.
+//
+// tlen()/evIs/evRecv/evErr/evS1/evS2 speak about the sequence of effectful calls the function under
+// contract makes directly (its own level of the call tree), in order.
+package runner
+
+//@ interface Step.Run(i *input.Input, o *output.Output) error effect
+//@   modifies *i, *o
+
+//@ interface printer.Println(s string) effect
+//@ interface printer.PrintAlignedLn(left string, extra []string) effect
+//@ interface indenter.Indent(s string) effect
+//@ interface indenter.EndIndent() effect
+//@ interface codeBuilder.Build(o output.Output) (tpl string, err error) effect
+//@ interface compiler.Compile(i input.Input) (o output.Output, err error) effect
+
+// C10: steps run in declaration order up to and including the first failing one; its error is returned
+// unchanged; nil is returned iff every step ran and returned nil (so the last step - code generation - runs
+// only after everything before it succeeded).
+//@ func (*Runner).Run
+//@   property C10 C16
+//@   requires [wired] forall j int :: 0 <= j && j < len(r.steps) ==> r.steps[j] != nil
+//@   ensures [runs_a_prefix_in_order] tlen() - old(tlen()) <= len(r.steps) && tlen() >= old(tlen())
+//@        && (forall j int :: 0 <= j && j < tlen() - old(tlen()) ==> evIs(old(tlen()) + j, "internal/cmd/runner:Step.Run") && evRecv(old(tlen()) + j) == r.steps[j])
+//@   ensures [earlier_steps_succeeded] forall j int :: 0 <= j && j < tlen() - old(tlen()) - 1 ==> evErr(old(tlen()) + j) == nil
+//@   ensures [success_means_all_ran_ok] result == nil ==> tlen() - old(tlen()) == len(r.steps) && (forall j int :: 0 <= j && j < len(r.steps) ==> evErr(old(tlen()) + j) == nil)
+//@   ensures [failure_is_the_last_steps_error] result != nil ==> tlen() > old(tlen()) && result == evErr(tlen() - 1)
+//@   loop 1
+//@     invariant [count] tlen() == old(tlen()) + $i
+//@     invariant [order] forall j int :: 0 <= j && j < $i ==> evIs(old(tlen()) + j, "internal/cmd/runner:Step.Run") && evRecv(old(tlen()) + j) == r.steps[j] && evErr(old(tlen()) + j) == nil
+
+// C16 / C10: an amalgamated step runs every sub-step exactly once, in order, whatever the others return, and
+// is accepted iff all of them are (no masking).
+//@ func (*StepAmalgamated).Run
+//@   property C10 C16
+//@   requires [wired] forall j int :: 0 <= j && j < len(s.steps) ==> s.steps[j] != nil
+//@   modifies *i, *o
+//@   ensures [runs_all_in_order] tlen() == old(tlen()) + len(s.steps)
+//@        && (forall j int :: 0 <= j && j < len(s.steps) ==> evIs(old(tlen()) + j, "internal/cmd/runner:Step.Run") && evRecv(old(tlen()) + j) == s.steps[j])
+//@   ensures [accept_iff_all_accept @a] result == nil ==> (forall j int :: 0 <= j && j < len(s.steps) ==> evErr(old(tlen()) + j) == nil)
+//@   ensures [accept_iff_all_accept_conv @b] (forall j int :: 0 <= j && j < len(s.steps) ==> evErr(old(tlen()) + j) == nil) ==> result == nil
+//@   loop 1
+//@     invariant [count] tlen() == old(tlen()) + $i && len(errs) == $i
+//@     invariant [order] forall j int :: 0 <= j && j < $i ==> evIs(old(tlen()) + j, "internal/cmd/runner:Step.Run") && evRecv(old(tlen()) + j) == s.steps[j] && errs[j] == evErr(old(tlen()) + j)
+
+// C16: a switchable step that is inactive does not run its parent and accepts; an active one runs the parent
+// exactly once and returns the parent's verdict unchanged. Indentation is balanced (C12: EndIndent never underflows).
+//@ func (*StepVerboseSwitchable).Run
+//@   property C10 C16
+//@   requires [wired] s.parent != nil && s.printer != nil && s.indenter != nil
+//@   modifies *i, *o
+//@   ensures [inactive_skips_parent] !s.active ==> result == nil && *i == old(*i) && *o == old(*o)
+//@        && (forall k int :: old(tlen()) <= k && k < tlen() ==> !evIs(k, "internal/cmd/runner:Step.Run"))
+//@   ensures [active_runs_parent_once] s.active ==> (exists k int :: old(tlen()) <= k && k < tlen() && evIs(k, "internal/cmd/runner:Step.Run") && evRecv(k) == s.parent && result == evErr(k)
+//@        && (forall k2 int :: old(tlen()) <= k2 && k2 < tlen() && k2 != k ==> !evIs(k2, "internal/cmd/runner:Step.Run")))
+//@   ensures [indent_balanced] s.active ==> (exists a int, b int :: old(tlen()) <= a && a < b && b < tlen() && evIs(a, "internal/cmd/runner:indenter.Indent") && evIs(b, "internal/cmd/runner:indenter.EndIndent")
+//@        && (forall k int :: old(tlen()) <= k && k < tlen() && k != a ==> !evIs(k, "internal/cmd/runner:indenter.Indent"))
+//@        && (forall k int :: old(tlen()) <= k && k < tlen() && k != b ==> !evIs(k, "internal/cmd/runner:indenter.EndIndent")))
+
+//@ func (*StepVerboseSwitchable).Active
+//@   property C16
+//@   modifies s.active
+//@   ensures [set] s.active == active && s.parent == old(s.parent) && s.printer == old(s.printer) && s.indenter == old(s.indenter)
+
+//@ func (*StepOutputValidationRule).Run
+//@   property C10 C16
+//@   requires o != nil
+//@   ensures [verdict_is_the_rules] result == apply(s.validator, old(*o))
+//@   ensures [output_untouched] *o == old(*o)
+
+//@ func (*StepCompile).Run
+//@   property C10
+//@   requires o != nil && i != nil && s.compiler != nil
+//@   modifies *o
+//@   ensures [compiles_once] tlen() == old(tlen()) + 1 && evIs(old(tlen()), "internal/cmd/runner:compiler.Compile") && result == evErr(old(tlen()))
+//@   ensures [input_untouched] *i == old(*i)
+
+// name() only reads the step (its result is display text).
+//@ func (*StepVerboseSwitchable).name
+//@   property C10
+//@   requires s.parent != nil
+
+// C10: the generator builds exactly once, writes at most once and only what a successful Build returned, to the
+// cleaned -o path; it succeeds iff both succeeded. (os.WriteFile is the only file-mutating call in the repository:
+// structural obligation of C10.)
+//@ func (*StepCodeGenerator).Run
+//@   property C10
+//@   requires [wired] s.printer != nil && s.builder != nil && o != nil
+//@   ensures [builds_exactly_once] exists b int :: old(tlen()) <= b && b < tlen() && evIs(b, "internal/cmd/runner:codeBuilder.Build")
+//@        && (forall k int :: old(tlen()) <= k && k < tlen() && k != b ==> !evIs(k, "internal/cmd/runner:codeBuilder.Build"))
+//@   ensures [writes_only_a_successful_build] forall w int :: old(tlen()) <= w && w < tlen() && evIs(w, "os.WriteFile") ==>
+//@        (exists b int :: old(tlen()) <= b && b < w && evIs(b, "internal/cmd/runner:codeBuilder.Build") && evErr(b) == nil
+//@            && evS2(w) == evS1(b) && evS1(w) == filepath.Clean(s.outputFile))
+//@   ensures [writes_at_most_once] forall w1 int, w2 int :: old(tlen()) <= w1 && w1 < tlen() && old(tlen()) <= w2 && w2 < tlen()
+//@        && evIs(w1, "os.WriteFile") && evIs(w2, "os.WriteFile") ==> w1 == w2
+//@   ensures [success_iff_written] (result == nil) <==> (exists w int :: old(tlen()) <= w && w < tlen() && evIs(w, "os.WriteFile") && evErr(w) == nil)
+//@   ensures [failure_is_reported_unchanged] result != nil ==> (exists k int :: old(tlen()) <= k && k < tlen() && result == evErr(k))
+//@   ensures [output_untouched] *o == old(*o)
+
+// C09 / C10: the files of one pattern are returned cleaned and in lexical order of the cleaned paths.
+//@ func (*StepReadConfig).findFiles
+//@   property C09 C10 C08
+//@   ensures [sorted_by_cleaned_path] forall a int, b int :: 0 <= a && a < b && b < len(result.0) ==> result.0[a] <= result.0[b]
+//@   ensures [paths_are_cleaned] forall k int :: 0 <= k && k < len(result.0) ==> filepath.Clean(result.0[k]) == result.0[k]
+//@   ensures [glob_error_returns_nothing] result.1 != nil ==> len(result.0) == 0
+//@   loop 1
+//@     invariant [len] len(matches) == len(entry(matches))
+//@     invariant [cleaned] forall k int :: 0 <= k && k < $i ==> filepath.Clean(matches[k]) == matches[k]
